@@ -263,6 +263,28 @@ def pairing_and_filter(check, P, cls_name, n_samples=4):
                 check.undecided("R3", f"{short}: vectorised sample heights {ht[:80]} not recognised")
                 check.floor(False, f"C19.R3: {cls_name}._interpolate_line builds its samples in a form the analysis does not recognise")
             continue
+        if not items and stacks and not direct:
+            # column form through get_depth_at: column_stack((xs, ys, [get_depth_at(x, y) for x, y in zip(xs, ys)]))
+            xs, ys, ds = stacks[-1].data["items"]
+            saved = I.heap
+            I.heap = path.heap
+            try:
+                tx, ty = I.tag(xs), I.tag(ys)
+                dl = I.deref(ds).items if isinstance(ds, Ref) and isinstance(I.heap.get(ds.addr), AList) else None
+                got = [I.tag(x) for x in dl] if dl is not None else None
+            finally:
+                I.heap = saved
+            if got is None:
+                check.undecided("R3", f"{short}: the heights column of the samples is not a list the analysis can follow")
+                continue
+            want = [f"depth(elem(zip({tx}, {ty}))#{i}[0],elem(zip({tx}, {ty}))#{i}[1])" for i in range(len(got))]
+            paired += 1
+            if got == want:
+                check.ok("R3", f"{short}: samples (xs, ys, [depth(x, y) for x, y in zip(xs, ys)]), {len(got)} unrolled")
+            else:
+                bad = next((g for g, w in zip(got, want) if g != w), got[:1])
+                check.violation("R3", f"{short}:sample-pairing", f"the samples pair the coordinates ({tx[:40]}, {ty[:40]}) with heights {str(bad)[:160]}: not the map's height at the same location", [decisions_text(path)])
+            continue
         if not items:
             continue
         for t in items:
